@@ -24,7 +24,7 @@ RULE = (
     "rollout/repeat vs a Python loop, jax.vmap over states (+ independence: replacing one member leaves "
     "the others unchanged), eqx.filter_vmap over the constructor parameter, vmap(rollout) = "
     "swapaxes(rollout(vmap)), repeat = last rollout entry; results finite and of the input dtype. "
-    "Non-trivial: batch >= 2 with distinct members, step differs from the identity, swept values distinct."
+    "Non-trivial: batch >= 2 with distinct members, step differs from the identity, swept values distinct. Parameter sweeps also fully compiled (filter_jit of filter_vmap of construct+call); a batch member set to inf/NaN must leave the other members of mapped rollouts unchanged (both nesting orders)."
 )
 ASSUMPTIONS = [
     "float64 session",
